@@ -1379,7 +1379,7 @@ def c07_mutation(rng):
     m = {"op": o, "k": rng.randrange(0, 40), "v": 0, "s": "0"}
     if o == "trunc":
         m["v"] = rng.choice([0, 1, 2, 3])
-        m["k"] = rng.randrange(1, 200) if m["v"] == 0 else rng.randrange(0, 40)
+        m["k"] = rng.choice([0, 0, 1, 2, 7, 8, 15, 16, rng.randrange(1, 200)]) if m["v"] == 0 else rng.randrange(0, 40)
     elif o == "hdrlen":
         m["v"] = rng.choice([0, 1, 3, 4, 12, 100, 0xffff, rng.randrange(65536)])
     elif o == "iel":
@@ -1402,7 +1402,7 @@ def c07_mutation(rng):
     elif o == "ver":
         m["v"] = rng.choice([0, 2, 7])
     elif o == "rand":
-        m["k"] = rng.choice([1, 2, 7, 8, 15, 16, 17, 100, 1500, 9000, 65000])
+        m["k"] = rng.choice([0, 1, 2, 7, 8, 15, 16, 17, 100, 1500, 9000, 65000])
         m["v"] = rng.randrange(1 << 30)
     return m
 
